@@ -13,10 +13,10 @@ from sketchnu.heavyhitters import HeavyHitters
 
 RULE = (
     "(1) Zipf(1) streams (seed-derived): K in {5000,10000,20000} distinct random keys of varied length (1..72 bytes, arbitrary byte values), total "
-    "N=2*10^5, inserted as add(key,count) in shuffled order into CountMinLinear(width in {32,64,128}, depth 8); oracle: the number of keys with "
+    "N=2*10^5, inserted as add(key,count) in shuffled order into CountMinLinear(width in {32,33,48,51,64,85,100,128}, depth 8); oracle: the number of keys with "
     "query-true > e*N/width is at most floor(K*exp(-8)), N = n_added(). (2) 20000 random keys of varied length (1..72 bytes); the column each key "
     "owns in each row is read from a probe sketch (one add to an empty sketch) for count-min linear/log16/log8 and heavy hitters at widths 16 (and "
-    "10, 64) and depths 2..8; oracle: for every pair of rows every cell of the width x width joint histogram and every marginal lies inside the "
+    "7, 9, 10, 12, 15, 17, 51, 64) and depths 2..8; oracle: for every pair of rows every cell of the width x width joint histogram and every marginal lies inside the "
     "exact two-sided Binomial acceptance interval at level 1e-14 per test (lgamma-computed; total false-alarm budget < 1e-9 per run). Equal or "
     "correlated rows put ~n/width keys on the diagonal or leave cells empty. Non-trivial: a stream with >= 1 key heavier than e*N/width; a row "
     "pair. Distinct = distinct (stream seed, K, width) / (class, width, depth, row pair)."
@@ -147,13 +147,15 @@ def run(tier, seed, rec):
     jobs = []
     reps = 1 if quick else 4
     for rep in range(reps):
-        for K, width in [(5000, 32), (10000, 64), (20000, 128), (5000, 128), (10000, 32), (5000, 64)][: 6]:
+        for K, width in [(5000, 32), (10000, 64), (20000, 128), (5000, 51), (10000, 100), (5000, 48), (5000, 85), (10000, 33)]:
             jobs.append((common.derive_seed(seed, "C14-stream", rep, K, width), K, width))
     common.pool_merge(_stream_task, jobs, rec)
     _KEYS2_SEED = common.derive_seed(seed, "C14-keys")
     _KEYS2 = rand_keys(np.random.default_rng(_KEYS2_SEED), 20000)
     depths = [2, 4, 8] if quick else [2, 3, 4, 5, 6, 7, 8]
     jj = [("linear", 16, d) for d in depths] + [("log16", 16, 8), ("log8", 16, 8), ("hh", 16, 4), ("linear", 10, 4), ("linear", 64, 3)]
+    # widths that are not powers of two, incl. divisors / multiples of the factors of 2^16-1 (3, 5, 17, 257)
+    jj += [("linear", 15, 8), ("linear", 51, 5), ("log8", 12, 5), ("log16", 17, 4), ("hh", 9, 4), ("linear", 7, 8)]
     if not quick:
         jj += [("log8", 64, 4), ("log16", 10, 8), ("hh", 8, 8), ("linear", 32, 8)]
     common.pool_merge(_joint_task, jj, rec)
